@@ -18,6 +18,9 @@ use crate::{Fs, Roll, VClock, VRng, EPOCH_2024_MS};
 #[derive(Serialize, Deserialize, Debug, Clone, PartialEq)]
 pub enum EOp {
     Emit(u8),
+    /// an event the writer REFUSES after it has produced some output (custom writer: fails part-way; default JSON
+    /// writer: a property JSON cannot express, a map keyed by a sequence). It must leave no trace in any record.
+    EmitRefused(u8),
     Flush,
     Spin(u16),
     Clock(u32),
@@ -38,6 +41,7 @@ pub struct FlushCase {
 pub fn flush_case() -> impl Strategy<Value = FlushCase> {
     let op = prop_oneof![
         8 => (0u8..60).prop_map(EOp::Emit),
+        1 => (0u8..60).prop_map(EOp::EmitRefused),
         2 => Just(EOp::Flush),
         2 => (0u16..3000).prop_map(EOp::Spin),
         1 => prop_oneof![0u32..50, 50u32..100_000, 100_000u32..5_000_000].prop_map(EOp::Clock),
@@ -95,7 +99,13 @@ pub fn check_flush(c: &FlushCase, cx: &mut Cx) -> vcore::Res {
             PathBuf::from("logs/e2e.txt"),
             |buf, evt| {
                 use std::io::Write;
-                write!(buf, "<{}>", evt.msg())
+                let msg = evt.msg().to_string();
+                if let Some(rest) = msg.strip_prefix('!') {
+                    // part of the record is produced, then the writer gives up on the event
+                    write!(buf, "<{}", &rest[..rest.len() / 2])?;
+                    return Err(std::io::Error::new(std::io::ErrorKind::InvalidData, "scripted refusal"));
+                }
+                write!(buf, "<{}>", msg)
             },
             b"\n",
         )
@@ -116,8 +126,9 @@ pub fn check_flush(c: &FlushCase, cx: &mut Cx) -> vcore::Res {
     let mut handles = Vec::new();
     for (ti, ops) in c.threads.iter().enumerate() {
         let (files, fs, clock, barrier, ops) = (files.clone(), fs.clone(), clock.clone(), barrier.clone(), ops.clone());
-        handles.push(std::thread::spawn(move || -> Result<(usize, usize, usize), String> {
+        handles.push(std::thread::spawn(move || -> Result<(usize, usize, usize, usize), String> {
             let mut mine: Vec<String> = Vec::new();
+            let mut refused = 0usize;
             let (mut flushes_true, mut flushes_false) = (0, 0);
             barrier.wait();
             for op in &ops {
@@ -133,6 +144,18 @@ pub fn check_flush(c: &FlushCase, cx: &mut Cx) -> vcore::Res {
                         files.emit(&evt);
                         drop(evt);
                         mine.push(id);
+                    }
+                    EOp::EmitRefused(filler) => {
+                        refused += 1;
+                        let id = format!("!refused-t{ti}:{}", "y".repeat(*filler as usize));
+                        let unrepresentable: std::collections::BTreeMap<Vec<i32>, i32> = [(vec![1, 2], 3)].into_iter().collect();
+                        let evt = emit::Event::new(
+                            emit::Path::new_raw("verif"),
+                            emit::Template::literal_ref(&id),
+                            emit::Empty,
+                            [("zz_refused", emit::Value::from_sval(&unrepresentable))],
+                        );
+                        files.emit(&evt);
                     }
                     EOp::Flush => {
                         if files.blocking_flush(Duration::from_secs(20)) {
@@ -157,15 +180,17 @@ pub fn check_flush(c: &FlushCase, cx: &mut Cx) -> vcore::Res {
                     EOp::Clock(ms) => *clock.0.lock().unwrap() += *ms as u64,
                 }
             }
-            Ok((mine.len(), flushes_true, flushes_false))
+            Ok((mine.len(), flushes_true, flushes_false, refused))
         }));
     }
     let mut total_true = 0;
+    let mut total_refused = 0;
     let mut verdict = Ok(());
     for h in handles {
         match h.join() {
-            Ok(Ok((_, t, f))) => {
+            Ok(Ok((_, t, f, r))) => {
                 total_true += t;
+                total_refused += r;
                 if f > 0 {
                     cx.dont_care(); // a flush that times out makes no claim
                 }
@@ -178,6 +203,8 @@ pub fn check_flush(c: &FlushCase, cx: &mut Cx) -> vcore::Res {
     cx.class_if(created >= 2, "file-e2e:rolled");
     cx.class_if(c.threads.len() >= 2, "file-e2e:threads>=2");
     cx.class_if(total_true > 0, "file-e2e:flush-true");
+    cx.class_if(total_refused > 0, "file-e2e:event-refused-by-the-writer");
+    cx.class_if(total_refused > 0 && c.default_writer, "file-e2e:event-refused-by-the-default-json-writer");
     cx.nontrivial(total_true > 0 && (c.threads.len() >= 2 || created >= 2));
     drop(files);
     // C10's "emit appends the separator if the formatter did not": after the worker has shut down every
@@ -202,6 +229,10 @@ pub fn check_flush(c: &FlushCase, cx: &mut Cx) -> vcore::Res {
                 } else {
                     rec.first() == Some(&b'<') && rec.last() == Some(&b'>') && rec.iter().filter(|b| **b == b'<').count() == 1
                 };
+                if contains(rec, b"refused-t") {
+                    verdict = Err(format!("file-e2e/record-not-one-event|{path}: record {:?} carries output of an event the writer refused", String::from_utf8_lossy(rec)));
+                    break 'files;
+                }
                 if !ok {
                     verdict = Err(format!("file-e2e/record-not-one-event|{path}: record {:?} is not exactly one formatted event", String::from_utf8_lossy(rec)));
                     break 'files;
